@@ -322,7 +322,9 @@ WHITELISTS = {'none': [], 'string': ['pub', 'meth', 'alias'], 'regex': [re.compi
               'regex-broad': [re.compile('p')], 'predicate-all': [lambda n: True], 'regex-middle': [re.compile('ub|eth|lias')],
               'string-private': ['_priv', '_pmeth', 'pub', '__class__'],
               # string entries are names, not patterns: these match no member of the probe
-              'string-meta': ['pu.', 'oth.*', 'met[h]', 'p|ub', '(pub)', 'target$x']}
+              'string-meta': ['pu.', 'oth.*', 'met[h]', 'p|ub', '(pub)', 'target$x'],
+              # a whitelist whose only entry is also refused as a remapping target: still a whitelist
+              'string-target': ['target']}
 BLACKLISTS = {'none': [], 'string': ['other', 'meth'], 'regex': [re.compile('oth|^met')],
               # unanchored entries match anywhere in the name (re.search semantics of the documentation's examples)
               'regex-middle': [re.compile('the|et')],
